@@ -2,14 +2,16 @@ ID = 'C01'
 TITLE = 'Edit primitives apply exactly the requested string edit and nothing else'
 CONTRACT_MODULES = ['contracts.utils_c', 'contracts.ersatz_c']
 FUNCTIONS = ['tangermeme.ersatz.substitute', 'tangermeme.ersatz.insert', 'tangermeme.ersatz.delete',
-             'tangermeme.ersatz.multisubstitute', 'tangermeme.ersatz.randomize']
+             'tangermeme.ersatz.multisubstitute', 'tangermeme.ersatz.randomize', 'tangermeme.utils._validate_input']
 BOUNDED = 'bounded.C01'
 BOUNDED_BUDGET = {'quick': 60, 'thorough': 900}
 LEVEL = 'proof'
 EXPLANATION = ("three-sided contracts (exact edit / raises-iff / acceptance / one-hot output / empty frame) on the real "
                "ersatz functions, every obligation generated from the current AST and discharged by z3 for all tensor sizes, "
-               "alphabet sizes and integer positions; bounded layer replays the same contracts on the real functions")
-ASSUMPTIONS = ["utils._validate_input: assumed call-site contract (bounded conformance, exhaustive on small tensors)",
+               "alphabet sizes and integer positions; the call-site contract of utils._validate_input that these proofs use is itself verified against "
+               "its body (one-hot-structured tensors with an arbitrary index function, plain integer / real tensors; torch.unique and min / max as "
+               "assumed relations); bounded layer replays the same contracts on the real functions")
+ASSUMPTIONS = ["utils._validate_input: verified on the argument families callers pass; allow_N=True and dtype= are outside the verified subset; torch.unique = strictly increasing vector of the occurring values, tensor.min/max bound every element and are attained (axioms, vf/lib.py)",
                "utils.random_one_hot: draw number k of the generator tape is some one-hot tensor of the requested shape; invalid probabilities are rejected (assumed)",
                "inputs are one-hot with alphabet size >= 2, batch >= 1, length >= 1 (precondition of the property)"]
 TRUSTED = []
